@@ -43,12 +43,12 @@ Atoms(f) ==
       [] f = "into_struct"   -> {"bare", "owned", "ref", "ref_mut", "owned_ref", "ref_refmut", "all3", "all3_comma", "ty_a", "ty_b", "ty_ab", "unknown_form",
                                  "legacy_types", "mixed_forms", "forms_nocomma"}
       [] f = "into_field"    -> {"skip", "ignore"}
-      [] f = "legacy_field"  -> {"sel", "ignore", "forward", "unknown", "eq_value", "name_value", "lit_param", "not_foreign", "not_unneg", "dup_flag", "contra_flag"}
+      [] f = "legacy_field"  -> {"sel", "ignore", "forward", "unknown", "eq_value", "name_value", "lit_param", "not_foreign", "not_unneg", "dup_flag", "contra_flag", "contra_flag_rev", "dup_not"}
       [] f = "legacy_forms"  -> {"owned", "ref", "ref_mut", "owned_ref", "all3", "unknown", "list_param", "name_value", "not_foreign", "not_unneg", "dup_flag"}
       \* a field of a variant that carries `ignore`: its attributes are validated like any other field's
       [] f = "ignored_variant_field" -> {"unknown", "form_on_field", "list_param"}
       [] f = "error_field"   -> {"source", "not_source", "backtrace", "ignore", "source_backtrace", "unknown", "nested_not", "not_unknown",
-                                 "list_param", "not_foreign", "not_unneg", "dup_flag", "contra_flag"}
+                                 "list_param", "not_foreign", "not_unneg", "dup_flag", "contra_flag", "contra_flag_rev", "dup_not"}
 
 Corrupt(f, a) == a \in {"legacy_fmt", "legacy_bound", "unknown", "legacy_types", "rename_bad", "unknown_form", "eq_value",
                          \* malformed parameter shapes of the State-based derives and of Into
@@ -59,7 +59,8 @@ Corrupt(f, a) == a \in {"legacy_fmt", "legacy_bound", "unknown", "legacy_types",
                          \* two entries of a list with no comma between them (`#[into(ref(i32) ref_mut)]`)
                          "forms_nocomma",
                          \* one attribute giving a flag twice (`forward, forward`) or together with its negation (`source, not(source)`)
-                         "dup_flag", "contra_flag",
+                         \* ... in either order (`not(source), source`), and the negation twice (`not(forward), not(forward)`)
+                         "dup_flag", "contra_flag", "contra_flag_rev", "dup_not",
                          \* a reference-form word on a FIELD (they belong to the enum / the variant)
                          "form_on_field",
                          \* a bare `#[from]` chooses among VARIANTS: on a struct it means nothing and is rejected
